@@ -339,6 +339,9 @@ func (r *Resolver) jsonMaybe(o *JSONOpts, c *schemagen.Comb, args []schemagen.Ar
 	if c.Name == "resultFalse" || len(c.Fields) == 0 {
 		if o.site("maybe-false-value") {
 			b, err := r.JSON(&JSONOpts{}, it, r.Zero(it))
+			if o.Rnd != nil && o.Rnd.Intn(2) == 0 {
+				return []byte(`{"value":` + string(b) + `,"ok":false}`), err
+			}
 			return []byte(`{"ok":false,"value":` + string(b) + `}`), err
 		}
 		if o.alt("maybe-ok-false") {
@@ -357,6 +360,9 @@ func (r *Resolver) jsonMaybe(o *JSONOpts, c *schemagen.Comb, args []schemagen.Ar
 	}
 	carries := o.Applied && !appliedBefore // the requested invalid form sits inside the value: it must be written
 	if o.site("maybe-false-value") {
+		if o.Rnd != nil && o.Rnd.Intn(2) == 0 { // key order must not matter
+			return []byte(`{"value":` + string(b) + `,"ok":false}`), nil
+		}
 		return []byte(`{"ok":false,"value":` + string(b) + `}`), nil
 	}
 	switch {
